@@ -46,10 +46,34 @@ pub enum PStep {
 }
 
 #[derive(Clone, Debug, Serialize, Deserialize)]
-pub struct Case {
+pub struct SeqCase {
     pub pool_log2: u8,
     pub buf_size: u16,
     pub steps: Vec<PStep>,
+}
+
+/// C08b: ReadBufs released concurrently from several threads while the kernel
+/// takes buffers, under the baton scheduler.
+#[derive(Clone, Debug, Serialize, Deserialize)]
+pub struct PoolSched {
+    pub pool_log2: u8,
+    pub buf_size: u16,
+    /// Buffers taken (sequentially) before the threads start.
+    pub take: u8,
+    /// Sequential take+release cycles before that (moves the ring tail).
+    pub pre_cycles: u8,
+    /// Per releaser thread: how many of the taken buffers it gives back.
+    pub releasers: Vec<u8>,
+    /// Buffer selections of the kernel thread.
+    pub kernel_selects: u8,
+    pub pool_tape: Vec<u16>,
+}
+
+#[derive(Clone, Debug, Serialize, Deserialize)]
+#[serde(untagged)]
+pub enum Case {
+    Seq(SeqCase),
+    Sched(PoolSched),
 }
 
 enum Fut {
@@ -440,7 +464,10 @@ impl Property for C08 {
     type Case = Case;
 
     fn strategy(_tier: Tier) -> BoxedStrategy<Case> {
-        (prop_oneof![4 => 0u8..=3, 1 => 4u8..=6], prop_oneof![1 => 1u16..8, 4 => 1u16..300, 1 => 4000u16..4096], proptest::collection::vec(pstep(), 0..80)).prop_map(|(pool_log2, buf_size, steps)| Case { pool_log2, buf_size, steps }).boxed()
+        let seq = (prop_oneof![4 => 0u8..=3, 1 => 4u8..=6], prop_oneof![1 => 1u16..8, 4 => 1u16..300, 1 => 4000u16..4096], proptest::collection::vec(pstep(), 0..80)).prop_map(|(pool_log2, buf_size, steps)| Case::Seq(SeqCase { pool_log2, buf_size, steps }));
+        let sched = (0u8..=3, 1u16..64, 1u8..=8, 0u8..=9, proptest::collection::vec(1u8..=3, 1..=3), 0u8..=4, proptest::collection::vec(any::<u16>(), 0..80))
+            .prop_map(|(pool_log2, buf_size, take, pre_cycles, releasers, kernel_selects, pool_tape)| Case::Sched(PoolSched { pool_log2, buf_size, take, pre_cycles, releasers, kernel_selects, pool_tape }));
+        prop_oneof![3 => seq, 1 => sched].boxed()
     }
 
     fn cases(tier: Tier) -> u32 {
@@ -448,7 +475,10 @@ impl Property for C08 {
     }
 
     fn run(case: &Case, ctx: &mut Ctx) {
-        run_case(case, ctx, 0);
+        match case {
+            Case::Seq(c) => run_case(c, ctx, 0),
+            Case::Sched(c) => run_sched(c, ctx),
+        }
     }
 
     fn extra(tier: Tier, _seed: u64, shard: u32, _of: u32, known: &[KnownFinding], out: &mut ShardOut) {
@@ -458,7 +488,7 @@ impl Property for C08 {
             return;
         }
         let cycles = tier.pick(70_000u32, 200_000);
-        let case = Case { pool_log2: if shard == 0 { 0 } else { 2 }, buf_size: 16, steps: vec![] };
+        let case = SeqCase { pool_log2: if shard == 0 { 0 } else { 2 }, buf_size: 16, steps: vec![] };
         let mut ctx = Ctx::new("C08", known, tier);
         run_case(&case, &mut ctx, cycles);
         out.evaluations += 1;
@@ -487,7 +517,7 @@ impl Property for C08 {
     }
 }
 
-fn run_case(case: &Case, ctx: &mut Ctx, long_cycles: u32) {
+fn run_case(case: &SeqCase, ctx: &mut Ctx, long_cycles: u32) {
     let mut world = match World::new(&RingCfg::simple(4)) {
         Ok(w) => w,
         Err(e) => {
@@ -803,4 +833,216 @@ fn step(exec: &mut Exec<'_>, s: &PStep) {
     if !exec.stop {
         exec.invariants(&what);
     }
+}
+
+#[derive(Copy, Clone, Debug, PartialEq, Eq)]
+enum BSt {
+    Offered,
+    Owned,
+    Releasing,
+    Selected,
+}
+
+struct SendBufs(Vec<(u16, ReadBuf)>);
+unsafe impl Send for SendBufs {}
+
+/// C08b: concurrent releases and kernel selections under the scheduler.
+fn run_sched(case: &PoolSched, ctx: &mut Ctx) {
+    use std::sync::{Arc, Mutex};
+    let mut world = match World::new(&RingCfg::simple(4)) {
+        Ok(w) => w,
+        Err(e) => {
+            ctx.infra(e);
+            return;
+        }
+    };
+    let fd = world.new_fd();
+    let pool_size: u16 = 1 << case.pool_log2.min(3);
+    let buf_size = case.buf_size.clamp(1, 4096) as usize;
+    let pool = {
+        let _s = track::scope(track::TAG_A10);
+        ReadBufPool::new(world.sq(), pool_size, buf_size as u32)
+    };
+    let pool = match pool {
+        Ok(p) => p,
+        Err(e) => {
+            ctx.infra(format!("ReadBufPool::new failed: {e}"));
+            return;
+        }
+    };
+    let (offered, bgid) = {
+        let mut s = sim::sim();
+        let ring = s.the_ring();
+        let bgid = ring.pbufs.first().map_or(0, |p| p.bgid);
+        (ring.offered_buffers(bgid), bgid)
+    };
+    if offered.len() != pool_size as usize {
+        ctx.violation("C08:pool-setup", format!("a new pool of {pool_size} buffers offers {} entries", offered.len()));
+        return;
+    }
+    let base = offered.iter().map(|e| e.addr as usize).min().unwrap();
+    let mut exec = Exec {
+        world,
+        fd,
+        pools: vec![pool],
+        ops: Vec::new(),
+        bufs: Vec::new(),
+        owner: (0..pool_size).map(|b| (b, Owner::Kernel)).collect(),
+        base,
+        pool_size,
+        buf_size,
+        bgid,
+        ctx,
+        events_seen: sim::events_len(),
+        classes: Vec::new(),
+        stop: false,
+        releases: 0,
+    };
+    let take_one = |exec: &mut Exec<'_>, frac: u16| {
+        step(exec, &PStep::Start(ReadKind::Read));
+        step(exec, &PStep::Poll { op: u16::MAX });
+        step(exec, &PStep::RingPoll);
+        step(exec, &PStep::Complete { op: u16::MAX, frac, more: false, fail: false });
+        step(exec, &PStep::RingPoll);
+        step(exec, &PStep::Poll { op: u16::MAX });
+    };
+    for k in 0..case.pre_cycles.min(12) {
+        take_one(&mut exec, 30_000 + k as u16);
+        step(&mut exec, &PStep::DropBuf { buf: u16::MAX, on_thread: false });
+    }
+    let take = (case.take as u16).clamp(1, pool_size);
+    for k in 0..take {
+        take_one(&mut exec, 20_000 + k);
+    }
+    exec.invariants("taking the buffers");
+    if exec.stop || exec.ctx.failed() || exec.ctx.infra.is_some() {
+        return;
+    }
+    let mut taken: Vec<(u16, ReadBuf)> = Vec::new();
+    for b in exec.bufs.iter_mut() {
+        if let Some(buf) = b.buf.take() {
+            taken.push((b.bid, buf));
+        }
+    }
+    let states: Arc<Mutex<BTreeMap<u16, BSt>>> = Arc::new(Mutex::new((0..pool_size).map(|b| (b, if taken.iter().any(|(t, _)| *t == b) { BSt::Owned } else { BSt::Offered })).collect()));
+    let problems: Arc<Mutex<Vec<(String, String)>>> = Arc::new(Mutex::new(Vec::new()));
+    let benign: Arc<Mutex<u32>> = Arc::new(Mutex::new(0));
+    let mut threads: Vec<Box<dyn FnOnce() + Send>> = Vec::new();
+    let nthreads = case.releasers.len().clamp(1, 3);
+    let mut released_concurrently = 0;
+    for t in 0..nthreads {
+        let n = (case.releasers.get(t).copied().unwrap_or(1) as usize).min(taken.len());
+        let mine = SendBufs(taken.drain(..n).collect());
+        released_concurrently += mine.0.len();
+        let states = states.clone();
+        let problems = problems.clone();
+        threads.push(Box::new(move || {
+            let mine = mine;
+            for (bid, buf) in mine.0 {
+                states.lock().unwrap().insert(bid, BSt::Releasing);
+                let r = {
+                    let _s = track::scope(track::TAG_A10);
+                    catch(move || drop(buf))
+                };
+                if let Err((m, l)) = r {
+                    problems.lock().unwrap().push(("panic".into(), format!("dropping the ReadBuf of buffer {bid} panicked at {l}: {m}")));
+                }
+                let mut st = states.lock().unwrap();
+                if st.get(&bid) == Some(&BSt::Releasing) {
+                    st.insert(bid, BSt::Offered);
+                }
+            }
+        }));
+    }
+    let nthreads_release = threads.len();
+    {
+        let states = states.clone();
+        let problems = problems.clone();
+        let benign = benign.clone();
+        let n = case.kernel_selects.min(4);
+        let (base, buf_size, pool_size) = (exec.base, exec.buf_size, exec.pool_size);
+        threads.push(Box::new(move || {
+            for _ in 0..n {
+                crate::sched::point(crate::sched::Kind::Syscall);
+                let entry = sim::sim().the_ring().select_buffer(bgid);
+                let Some(e) = entry else { continue };
+                let well = e.bid < pool_size && e.addr as usize == base + e.bid as usize * buf_size && e.len as usize == buf_size;
+                if !well {
+                    problems.lock().unwrap().push(("sched:malformed-entry".into(), format!("the kernel took ring entry {{addr {:#x}, len {}, bid {}}} which is not a buffer of the pool", e.addr, e.len, e.bid)));
+                    continue;
+                }
+                let mut st = states.lock().unwrap();
+                match st.get(&e.bid).copied() {
+                    Some(BSt::Offered) => {
+                        st.insert(e.bid, BSt::Selected);
+                    }
+                    Some(BSt::Releasing) => {
+                        // Its owner is giving it up right now: nobody observes it any more.
+                        st.insert(e.bid, BSt::Selected);
+                        *benign.lock().unwrap() += 1;
+                    }
+                    Some(BSt::Owned) => problems.lock().unwrap().push(("sched:selected-owned-buffer".into(), format!("the kernel was offered buffer {} while a live ReadBuf owns it (the ring tail it read did not describe the ring)", e.bid))),
+                    Some(BSt::Selected) => problems.lock().unwrap().push(("sched:selected-twice".into(), format!("the kernel was offered buffer {} a second time without a release in between", e.bid))),
+                    None => {}
+                }
+            }
+        }));
+    }
+    let outcome = crate::sched::run(case.pool_tape.clone(), 20_000, false, threads);
+    if outcome.over_budget {
+        exec.ctx.infra("scheduler step budget exceeded");
+    }
+    for p in &outcome.panics {
+        exec.fail("sched:panic", format!("thread panicked: {p}"));
+    }
+    if outcome.stuck {
+        exec.fail("sched:deadlock", format!("no runnable thread; parked: {:?}", outcome.parked_at_end));
+    }
+    for (k, m) in problems.lock().unwrap().drain(..) {
+        exec.fail(&k, m);
+    }
+    // Conservation.
+    if !exec.stop && !exec.ctx.failed() {
+        let offered: Vec<u16> = sim::sim().the_ring().offered_buffers(bgid).iter().map(|e| e.bid).collect();
+        let st = states.lock().unwrap().clone();
+        for (bid, s) in &st {
+            let n = offered.iter().filter(|b| *b == bid).count();
+            match s {
+                BSt::Offered if n == 0 => exec.fail("sched:buffer-lost", format!("buffer {bid} was given back (concurrently with other releases) but is not offered to the kernel: ring holds {offered:?}")),
+                BSt::Offered if n > 1 => exec.fail("sched:offered-twice", format!("buffer {bid} is offered to the kernel {n} times: ring holds {offered:?}")),
+                BSt::Owned | BSt::Selected if n > 0 => exec.fail("sched:offered-while-owned", format!("buffer {bid} is {s:?} but also offered to the kernel: ring holds {offered:?}")),
+                _ => {}
+            }
+        }
+        if offered.len() > pool_size as usize {
+            exec.fail("sched:ring-overfull", format!("the ring offers {} entries for a pool of {pool_size}", offered.len()));
+        }
+    }
+    let mut classes = std::mem::take(&mut exec.classes);
+    classes.push("scheduled");
+    if outcome.interesting_switches > 0 {
+        classes.push("switch-inside-a10");
+    }
+    if nthreads_release >= 2 && released_concurrently >= 2 {
+        classes.push("concurrent-releases");
+    }
+    if *benign.lock().unwrap() > 0 {
+        classes.push("selected-while-releasing");
+    }
+    let Exec { world, pools, bufs, ops, ctx, .. } = exec;
+    {
+        let _s = track::scope(track::TAG_A10);
+        drop(taken);
+        drop(ops);
+        drop(bufs);
+        drop(pools);
+        drop(world);
+    }
+    classes.sort();
+    classes.dedup();
+    for c in &classes {
+        ctx.class(c);
+    }
+    ctx.nontrivial = classes.contains(&"switch-inside-a10") && (classes.contains(&"concurrent-releases") || case.kernel_selects > 0);
+    ctx.fingerprint = format!("sched|pool{}|{}|{:x}", pool_size, classes.join("|"), crate::common::fnv(&format!("{case:?}")) & 0xffff);
 }
